@@ -81,15 +81,25 @@ def make_rejected(kind, cmds, pos, rng, tag):
     return None
 
 
-def insert_rejected(cmds, seed):
+SCOPE_KINDS = ["duplicate-define", "duplicate-define", "duplicate-define", "duplicate-name", "duplicate-name", "named-then-fail",
+               "bad-define-sort", "pop-too-far"]
+
+
+def insert_rejected(cmds, seed, scope_base=False):
     rng = random.Random(seed * 59 + 31)
     start = next(i for i, c in enumerate(cmds) if c["k"] == "set-logic") + 1
     first_body = next((i for i, c in enumerate(cmds) if c["k"] not in ("set-option", "set-logic", "declare-sort", "declare-fun")), len(cmds))
     out = list(cmds)
     inserted = []
     for j in range(rng.choice([1, 1, 2, 3])):
-        kind = KINDS[(seed + j * 5) % len(KINDS)]
+        kind = KINDS[(seed + j * 5) % len(KINDS)] if not scope_base else SCOPE_KINDS[(seed // 5 + j * 3) % len(SCOPE_KINDS)]
         pos = rng.randint(first_body, len(out))
+        if scope_base and kind.startswith("duplicate"):
+            # inside a pushed level, so that the pop of that level follows the rejected command
+            deeper = [i + 1 for i, c in enumerate(out) if c["k"] == "push" and i + 1 >= first_body]
+            if deeper:
+                pos = rng.choice(deeper) + rng.choice([0, 0, 1])
+                pos = min(pos, len(out))
         txt = make_rejected(kind, out, pos, rng, "%d_%d" % (seed % 1000, j))
         if txt is None:
             continue
@@ -167,7 +177,7 @@ def judge(cmds, plus, kinds_used, oracle, res=None):
 def case(seed):
     res = CaseResult()
     cmds, oracle = base_script(seed)
-    plus, kinds = insert_rejected(cmds, seed)
+    plus, kinds = insert_rejected(cmds, seed, scope_base=(seed % 5 == 4))
     if not kinds:
         res.inc("no_insertion_applicable")
         return res
